@@ -121,6 +121,7 @@ func NewPebbleScanner(dbPath string, opts PebbleScannerOptions) (*PebbleScanner,
 	if opts.ReadOnly {
 		pebbleOpts.ReadOnly = true
 	}
+	verifPebbleOptions(pebbleOpts)
 
 	// Critical Fix: PebbleDB Locking and Concurrency
 	// We implement a retry loop here because automated pipelines or rapid restarts
@@ -552,6 +553,7 @@ func (s *PebbleScanner) ScanCandidates(topo *topology.FunctionTopology) ([]*dete
 
 		seen[sigID] = true
 		sigKey := append(append([]byte(nil), prefixSignatures...), []byte(sigID)...)
+		verifYield("scan.beforeRecordFetch")
 		sigData, closer, err := snap.Get(sigKey)
 		if err != nil {
 			return // skip missing
@@ -671,6 +673,7 @@ func (s *PebbleScanner) ScanTopologyExact(topo *topology.FunctionTopology, funcN
 		}
 
 		sigKey := append(append([]byte(nil), prefixSignatures...), []byte(sigID)...)
+		verifYield("exact.beforeRecordFetch")
 		sigData, closer, err := snap.Get(sigKey)
 		if err != nil {
 			continue
@@ -1209,6 +1212,7 @@ func (s *PebbleScanner) ScanTopologyWithSnapshot(snap *pebble.Snapshot, topo *to
 
 		seen[sigID] = true
 		sigKey := append(append([]byte(nil), prefixSignatures...), []byte(sigID)...)
+		verifYield("scan.beforeRecordFetch")
 		sigData, closer, err := snap.Get(sigKey)
 		if err != nil {
 			return
